@@ -124,7 +124,7 @@ def finish(rep: Report, prog, t0: float, seed: int = 0, write: bool = True, quie
     # floors: a rule that matches fewer sites than confirmed by hand must not pass vacuously
     for rule, floor in rep.floors.items():
         n = len(per_rule.get(rule, []))
-        if n < floor:
+        if n < floor and all(i.verdict == OK for i in per_rule.get(rule, [])):
             rep.error(f"rule {rule} matched {n} instance(s), floor is {floor} (anchor vanished or shape unrecognised)")
     viols = [i for i in rep.instances if i.verdict == VIOLATION]
     unrec = [i for i in rep.instances if i.verdict == UNRECOGNISED]
